@@ -6,6 +6,16 @@ import os
 HERE = os.path.dirname(os.path.dirname(os.path.abspath(__file__)))
 
 CHECKS = {
+    "C01": dict(
+        technique="property-based testing (Hypothesis) against a Python string-edit reference model + exhaustive small-scope enumeration",
+        category="exploration", design_ref="DESIGN.md §3 C01",
+        text="Every sequence of length <=5 x every motif of length <=3 x every start in [-3, L+3] (alphabet sizes 2-3 quick, 2-4 "
+             "thorough) is enumerated for substitute/insert, every (start,end) pair for delete/randomize, and Hypothesis draws "
+             "longer sequences, alphabets up to 6, all motif forms (string, shared, per-example, wrong batch), multisubstitute "
+             "with int/list spacing. In-range edits must equal the string model exactly and be valid one-hot; out-of-range must "
+             "raise; inputs are compared with clones. Bounded search; the enumerated scope is complete.",
+        note="Trusts the harness-side encoder/decoder (pbt/gen.py) and Python string slicing as the reference. Motifs use alphabet "
+             "characters only; spacings non-negative; X and motif share a dtype."),
     "C15": dict(
         technique="property-based testing (Hypothesis) with a string round-trip / direct-slicing oracle + exhaustive small-scope enumeration",
         category="exploration", design_ref="DESIGN.md §3 C15",
